@@ -10,6 +10,7 @@ import Fir.Model.ProtoThreads
 import Fir.Model.ProtoColor
 import Fir.Model.ProtoFit
 import Fir.Model.ProtoResize
+import Fir.Model.ProtoAlphaView
 import Fir.Model.ProtoOracles
 import Fir.Model.ProtoCoeffs
 import Fir.Model.ProtoKernel
@@ -21,9 +22,17 @@ def handleLine (line : String) : String :=
   | [] => "BAD-REQUEST empty"
   | cmd :: _ =>
     let fs := fieldsOf line
+    -- a panic of the implementation is never an acceptable outcome (C03), except for custom kernels outside
+    -- the documented head-room, which `resize` requests mark with guard=out
+    let panicked := ((getField fs "got").getD "").startsWith "panic:" || ((getField fs "ref").getD "").startsWith "panic:"
+    if panicked && getField fs "guard" != some "out" then
+      "SPEC-FAIL the implementation panicked: " ++ (((getField fs "got").getD "").take 200).toString
+    else
     match cmd with
     | "alpha" => handleAlpha fs
     | "alpha-reject" => handleAlphaReject fs
+    | "table" => handleTable fs
+    | "alphaview" => handleAlphaView fs
     | "convert" => handleConvert fs
     | "convert-rt" => handleConvertRt fs
     | "convert-reject" => handleConvertReject fs
